@@ -13,8 +13,44 @@ def v3s (v : V3) : List Float := [v.x, v.y, v.z]
  `ltan raan ltan sun`             → raan2ltan(raan,sun) ltan2raan(ltan,sun)
  `walker <delta 0|1> t p f raan0` → 2·p·(t/p) floats raan nu …
  `beta p(3) v(3) ref(3)`          → beta
- `bplane mu aAbs r(3) v(3)`       → B(3) theta S(3) T(3) R(3) e(3) h(3) -/
+ `bplane mu aAbs r(3) v(3)`       → B(3) theta S(3) T(3) R(3) e(3) h(3)
+ `dtheta <prograde 0|1> r0(3) r1(3)` → dtheta A
+ `j2seq mu re j2 a e i raan argp M t <ops>` with ops `S k v` (orb[k] = v), `D t` (orb.date = t), `P dt` (propagate)
+                                  → a e i raan argp M t of every `P`, in order -/
+def parseOps : Nat → List String → Option (List J2Op)
+  | _, [] => some []
+  | fuel + 1, "S" :: k :: v :: rest =>
+    match k.toNat?, fOfStr? v, parseOps fuel rest with
+    | some k, some v, some ops => if k < 6 then some (J2Op.setEl k v :: ops) else none
+    | _, _, _ => none
+  | fuel + 1, "D" :: t :: rest =>
+    match fOfStr? t, parseOps fuel rest with
+    | some t, some ops => some (J2Op.setDate t :: ops)
+    | _, _ => none
+  | fuel + 1, "P" :: dt :: rest =>
+    match fOfStr? dt, parseOps fuel rest with
+    | some dt, some ops => some (J2Op.prop dt :: ops)
+    | _, _ => none
+  | _, _ => none
+
 def handle : List String → Option String
+  | "dtheta" :: pro :: rest => some <|
+    match takeFloats 6 rest with
+    | some ([a, b, c, d, e, f], _) =>
+      let r0 : V3 := ⟨a, b, c⟩
+      let r1 : V3 := ⟨d, e, f⟩
+      let dth := lamDtheta r0 r1 (pro == "1")
+      fsToStr [dth, lamA (V3.norm r0) (V3.norm r1) dth]
+    | _ => "bad-op"
+  | "j2seq" :: rest => some <|
+    match takeFloats 10 rest with
+    | some ([mu, re, j2, a, e, i, raan, argp, M, t], ops) =>
+      match parseOps ops.length ops with
+      | some ops =>
+        fsToStr ((J2Obj.run mu re j2 ⟨⟨a, e, i, raan, argp, M, t⟩, none⟩ ops).flatMap
+          (fun o => [o.a, o.e, o.i, o.raan, o.argp, o.M, o.t]))
+      | none => "bad-op"
+    | _ => "bad-op"
   | "lamfn" :: rest => some <|
     match takeFloats 6 rest with
     | some ([nr0, nr1, A, z, d, mu], _) =>
